@@ -4,6 +4,7 @@ import (
 	"fmt"
 	"os"
 	"path/filepath"
+	"regexp"
 	"strings"
 	"sync"
 	"time"
@@ -36,7 +37,32 @@ func calibrate(r *core.Run, goose string) bool {
 	return calibOK
 }
 
+// calibrateNameTable reads the GooseLang library names the translator can emit (the string arguments of
+// GallinaIdent / newCoqCall in the translator's source) and tells the model which of them it does not
+// implement: an unknown unqualified name in emitted text is "reference not found" only for names outside
+// that table.
+func calibrateNameTable(r *core.Run) {
+	re := regexp.MustCompile(`(?:GallinaIdent|newCoqCall)\("([A-Za-z0-9_.]+)"`)
+	seen, missing := 0, []string{}
+	for _, f := range []string{"goose.go", "types.go", "interface.go", "idents.go", "internal/coq/coq.go"} {
+		b, err := os.ReadFile(filepath.Join(core.RepoDir, f))
+		if err != nil {
+			continue
+		}
+		for _, m := range re.FindAllStringSubmatch(string(b), -1) {
+			seen++
+			if !gl.KnownLibraryName(m[1]) {
+				gl.UnmodelledLibraryNames[m[1]] = true
+				missing = append(missing, m[1])
+			}
+		}
+	}
+	r.Set("translator_library_names_read", seen)
+	r.Set("translator_library_names_not_in_model", missing)
+}
+
 func doCalibrate(r *core.Run, goose string) bool {
+	calibrateNameTable(r)
 	out := filepath.Join(r.Scratch, "calib-out")
 	res := core.Exec(core.RepoDir, core.GoEnv(), 3*time.Minute, "", goose, "-out", out, "./internal/examples/semantics")
 	if res.Code != 0 {
